@@ -15,7 +15,7 @@ variable {I K : Type}
     the successful items -/
 theorem records_only_successful (cb : I → Outcome K) (got : List I) :
     workerRecords cb got = ((got.filter fun x => (cb x).ret.isSome).map fun x => (cb x).ret.getD 0).sum := by
-  sorry
+  exact workerRecords_filter cb got
 
 /-- every item's operations (complete for successful items, the partial ones a raising item did
     before raising) are in exactly one worker's sketch -/
@@ -24,7 +24,9 @@ theorem C19_callback (cap : Nat) (items : List I) (n : Nat) (s : PState I) (R : 
     (s.workers.map fun w => workerRecords cb w.got).sum
         = ((items.filter fun x => (cb x).ret.isSome).map fun x => (cb x).ret.getD 0).sum ∧
     ∃ perm : List I, perm.Perm items ∧ (s.workers.flatMap fun w => workerOps cb w.got) = workerOps cb perm := by
-  sorry
+  refine ⟨?_, C08.ops_total cap items n s R hf cb⟩
+  exact (workerRecords_workers cb s.workers).trans
+    ((workerRecords_perm cb (R.exactly_once hf).1).trans (workerRecords_filter cb items))
 
 /-- a worker exit code ≠ 0 in any snapshot the monitor sees ⇒ the queues are closed ⇒ the
     outcome is an error, never a result -/
@@ -32,17 +34,17 @@ theorem C19_dead (pre : List (List (Option Int))) (codes : List (Option Int)) (r
     (closed r : Bool) (h : monitor (pre ++ codes :: rest) closed = some r)
     -- the snapshot `codes` is actually reached: every earlier snapshot still had a running worker
     (hpre : ∀ c ∈ pre, pollAnyNone c = true) (hbad : pollClosed codes = true) : r = true := by
-  sorry
+  exact monitor_dead pre codes rest closed r h hpre hbad
 
 /-- the monitor keeps waiting while some worker is running and ends as soon as none is -/
 theorem monitor_ends (codes : List (Option Int)) (rest : List (List (Option Int))) (closed : Bool)
     (h : pollAnyNone codes = false) : monitor (codes :: rest) closed = some (closed || pollClosed codes) := by
-  sorry
+  exact monitor_cons_ended codes rest closed h
 
 /-- all clean exits ⇒ not closed -/
 theorem monitor_clean (snaps : List (List (Option Int))) (r : Bool) (h : monitor snaps false = some r)
     (hclean : ∀ codes ∈ snaps, pollClosed codes = false) : r = false := by
-  sorry
+  exact Sketchnu.monitor_clean snaps r h hclean
 
 example : monitor [[none, some 0], [some 3, some 0]] false = some true := by decide
 example : monitor [[none, some 0], [some 0, some 0]] false = some false := by decide
